@@ -160,9 +160,40 @@ def objective(structure):
 
 
 def optimum(pairs, cap_nodes=2_000_000):
-    """Exact maximum of `objective` over proper level assignments of the stems (branch and bound).
-    Returns (value, nodes) or (None, nodes) when the node cap was hit."""
+    """Exact maximum of `objective` over proper level assignments of the stems: the conflict graph is
+    split into connected components, each solved by branch and bound.  Returns (value, nodes) or
+    (None, nodes) when the node cap was hit."""
     st = stems(pairs)
+    adj = conflict_graph(st)
+    seen = set()
+    total = 0
+    nodes = 0
+    for a in range(len(st)):
+        if a in seen:
+            continue
+        comp, todo = [], [a]
+        seen.add(a)
+        while todo:
+            x = todo.pop()
+            comp.append(x)
+            for y in adj[x]:
+                if y not in seen:
+                    seen.add(y)
+                    todo.append(y)
+        if len(comp) == 1:
+            total += 2 * st[a][2]
+            continue
+        comp.sort()
+        sub = [st[x] for x in comp]
+        v, nd = _optimum_component(sub, cap_nodes - nodes)
+        nodes += nd
+        if v is None:
+            return None, nodes
+        total += v
+    return total, nodes
+
+
+def _optimum_component(st, cap_nodes):
     adj = conflict_graph(st)
     n = len(st)
     if n == 0:
